@@ -957,7 +957,13 @@ def _alter_files(
         if wt_path is not None:
             trans_id = tt.trans_id_tree_path(wt_path)
         else:
-            trans_id = tt.assign_id()
+            file_id = getattr(change, "file_id", None)
+            if file_id is not None and working_tree.supports_setting_file_ids():
+                # the same transform id that children moved back below this
+                # entry ask for (trans_id_file_id), whichever comes first
+                trans_id = tt.trans_id_file_id(file_id)
+            else:
+                trans_id = tt.assign_id()
         if change.changed_content:
             keep_content = False
             if wt_kind == "file" and (backups or target_kind is None):
